@@ -154,6 +154,23 @@ type FuncCtx struct {
 	headLine      map[*ssa.BasicBlock]int
 	prevHeadLine  map[*ssa.BasicBlock]int
 	sliceArr      map[string]string
+	ownRecs       map[string]string
+	pureInline    bool
+	seeded        map[string]bool
+}
+
+// seed makes an integer term available as an instantiation point for the
+// bounded quantifiers of the clause language (they are triggered by trg).
+func (fx *FuncCtx) seed(t string) {
+	if fx.specMode || t == "" || strings.Contains(t, "!") {
+		return
+	}
+	if fx.seeded[t] {
+		return
+	}
+	fx.seeded[t] = true
+	fx.u.uf("trg", "(declare-fun trg (Int) Bool)")
+	fx.emit("(assert (trg " + t + "))")
 }
 
 type loopMods struct {
